@@ -24,7 +24,14 @@ finish() call), whatever the controller reports about it at launch time.
 B. per DoWhile case (no Lean model of loops: failing-input search): a package with one DoWhile document (1-4
 iterations, the condition file is written when the condition producer succeeds) and consumers outside the loop
 (:ref / :loopref, same or next stage); oracle at the end of the run: every launched component is judged against ALL
-producers it finally has in the graph, i.e. every iteration instantiated while the workflow ran.
+producers it finally has in the graph, i.e. every iteration instantiated while the workflow ran.  A second generator
+(CS.gen_loop_case_offpath) builds the loop around a looped component that is OFF the critical path of the loop
+condition (the next iteration is instantiated as soon as the producer of the condition has finished, so such an
+instance can still be running when newer instances of it are over), consumers outside the loop reference it, and
+the schedule keeps older instances running (CS.laggard_chooser).  Runs in which every task succeeds are compared
+after every op with the Lean model St4sd.CtrlLoop (Model/CtrlLoop.lean, second entry point of drv-c01): current
+iteration, phase of every instance (not over / final / locked part of finishedCheck done / in comp_done), consumer
+launched - per consumer outside the loop.
 """
 from __future__ import annotations
 
@@ -49,10 +56,13 @@ RULE = ("case = A. (FlowIR template of 2-8 components over 1-3 stages - random, 
         "stage-completion hook answering True at a random moment, under one of 6 "
         "delivery biases, stage transitions when a stage completes; a sample is run again at the end of the process) or B. (DoWhile package: loop of 1-4 iterations of "
         "1-2 components in stage 0/1, consumers of the looped components outside the loop in the same or the next stage, "
-        "same kinds of schedule).  Non-trivial = A: the workflow has >= 3 components after "
+        "same kinds of schedule; or loop of 2-4 iterations of 2-3 components work / check / side of which at least one is "
+        "not upstream of the condition, :ref / :loopref consumers of those, schedule that keeps older instances of "
+        "them running while newer iterations are instantiated and end).  Non-trivial = A: the workflow has >= 3 components after "
         "replication, >= 2 components were launched and at least one scheduler pass ran inside a window in which "
         "some component had reached a final state that the controller had not recorded yet; B: >= 2 iterations, >= 3 "
-        "launches and a scheduler pass ran while a finished-notification was being handled.  Distinct by "
+        "launches and (a scheduler pass ran while a finished-notification was being handled or an instance of a looped "
+        "component was still running when the instance of the next iteration was over).  Distinct by "
         "canonical JSON of (template | loop, scripts, ops).")
 
 
@@ -316,7 +326,9 @@ def setup(ctx):
         "its closure runs atomically with respect to scheduler passes and the three parts of finishedCheck (it holds "
         "comp_lock); the set of components it hands to _stopComponents is iterated in reference order",
         "references are ':ref' references (no file has to exist for stage-in to succeed)",
-        "DoWhile cases are checked by the oracle only (the Lean model has no loops)",
+        "DoWhile: the launch rules are evaluated by the oracle on every run; the Lean model of loops (St4sd.CtrlLoop: "
+        "one consumer outside the loop, dependencies inside the loop abstracted away, no failing tasks) is compared "
+        "with the runs in which every task succeeds; failed / shut-down looped components stay oracle-only",
     ]
     ctx.trusted.append("C01/C02: harness/detsim.py (monkey-patched rx schedulers/timers, held controller / engine-task "
                        "pools read through ScheduledObserver.queue, FakeEngine, HLock + worker threads with strict "
@@ -375,7 +387,7 @@ def run_n(ctx, n, n_loops=0, n_again=12, n_offpath=0):
 def run(ctx):
     setup(ctx)
     if ctx.tier == "quick":
-        run_n(ctx, 300, 70, 12, 50)
+        run_n(ctx, 300, 60, 12, 40)
     else:
         run_n(ctx, 2700, 600, 60, 450)
 
